@@ -269,11 +269,38 @@ func runC15Representations(c *Ctx) {
 			back, err := fhir.ParseTime(str)
 			c.Law(err == nil && fhirconv.TimeToString(back) == str, "C15/helper-inverse", "parse after format is the identity", in, fmt.Sprintf("%q (%v)", str, err))
 			sv := system.TimeFromProto(e)
+			{
+				// the System value denotes what the element denotes: hh:mm:ss with the element's fraction digits
+				// (a microsecond element whose last three digits are 000 is the millisecond value)
+				tt := time.UnixMicro(us).UTC()
+				want := map[dtpb.Time_Precision]string{dtpb.Time_SECOND: tt.Format("15:04:05"), dtpb.Time_MILLISECOND: tt.Format("15:04:05.000"), dtpb.Time_MICROSECOND: tt.Format("15:04:05.000000")}[p]
+				if p == dtpb.Time_MICROSECOND && strings.HasSuffix(want, "000") {
+					want = want[:len(want)-3]
+				}
+				c.Law(sv.String() == want, "C15/element-system-value", "element -> System value keeps the value and the precision", in, sv.String()+" vs "+want)
+			}
 			again := system.TimeFromProto(sv.ToProtoTime())
 			c.Law(same(sv, again), "C15/system-element-system", "System -> element -> System preserves value and precision", in, observeTemporal(sv)+" vs "+observeTemporal(again))
 			re, err3 := system.ParseTime(sv.String())
 			c.Law(err3 == nil && same(sv, re), "C15/canonical-string", "the canonical string form re-parses to an equal value", in, sv.String())
 		}
+	}
+	// ---- Integer literals: decimal digits, leading zeros allowed, nothing else
+	for _, n := range []int64{0, 1, 7, 8, 9, 10, 64, 100, 777, 2147483647} {
+		for zeros := 0; zeros <= 3; zeros++ {
+			lit := strings.Repeat("0", zeros) + fmt.Sprint(n)
+			o := compileEval(lit, nil)
+			c.Observe("integer literal "+lit, true)
+			c.Law(outTokens(o) == fmt.Sprintf("ok:[I:%d]", n), "C15/integer-literal", "an Integer literal evaluates to the value its decimal digits denote", lit, outTokens(o))
+			v, err := system.ParseInteger(lit)
+			c.Law(err == nil && int64(v) == n, "C15/integer-literal", "an Integer text is read as decimal digits", "ParseInteger("+lit+")", fmt.Sprint(v, err))
+			o2 := compileEval("'"+lit+"'.toInteger()", nil)
+			c.Law(outTokens(o2) == fmt.Sprintf("ok:[I:%d]", n), "C15/integer-literal", "an Integer text is read as decimal digits", "'"+lit+"'.toInteger()", outTokens(o2))
+		}
+	}
+	for _, bad := range []string{"0x10", "0b1", "0o7", "1_000", "1e3", "٣"} {
+		_, err := system.ParseInteger(bad)
+		c.Law(err != nil, "C15/integer-literal", "only decimal digits are an Integer text", "ParseInteger("+bad+")", "accepted")
 	}
 	// ---- decimals: leading / trailing zeros, up to 30 digits
 	for i := 0; i < 300; i++ {
